@@ -5,7 +5,7 @@ ROOT = os.path.dirname(os.path.dirname(os.path.abspath(__file__)))
 
 CHECKS = {
  "C13": dict(
-   text="(1) strict snapshot of every generated model before and after every printer / graph / utils call and of module file slices around the merger; (2) explicit-state breadth-first search over the states of the process-global ANTLR caches (keyed by the serialised DFAs) with the real parse entry points and the other public calls as transitions, successor = cache reset + history replay + one call, invariant on every transition: output equals the cold output and every object returned earlier in the history still renders as when it was returned; the alphabet includes calls that fail part-way and one weighted-graph builder value that lives as long as the process; (3) stateless exploration of all interleavings of two (thorough: three) concurrent public calls within a preemption bound, scheduling points injected at every statement of the repository's packages and at every antlr lock operation, caches reset per execution: each result equals the sequential one, shared inputs unchanged, no deadlock or panic; (4) the same bodies free-running in a separate -race build.",
+   text="(1) strict snapshot of every generated model before and after every printer / graph / utils call and of module file slices around the merger; (2) explicit-state breadth-first search over the states of the process-global ANTLR caches (keyed by the serialised DFAs) with the real parse entry points and the other public calls as transitions, successor = cache reset + history replay + one call, invariant on every transition: output equals the cold output and every object returned earlier in the history still renders as when it was returned; the alphabet includes calls that fail part-way and one weighted-graph builder value that lives as long as the process; (3) stateless exploration of all interleavings of two (thorough: three) concurrent public calls within a preemption bound, scheduling points injected at every statement of the repository's packages and at every antlr lock operation, caches reset per execution: each result equals the sequential one, shared inputs unchanged, no deadlock or panic; (4) the same bodies free-running in a separate -race build. Rounds 10-11: twin inputs (same names - and the same model id - with other content) for parser, printer and both graph builders, two calls on one shared builder value, fga.mod calls (complete, lacking a field, rejected by the YAML decoder after its fields were filled); the sched variant owns process state inside the repository's packages: sync is rewritten to a scheduler-aware shim (mutexes, Once, LIFO pool) and package-level variables are restored before every execution by generated code, so a cache or pool that a change adds yields a deterministic counterexample instead of a stalled or diverging exploration.",
    note="Statement-level scheduling granularity; unsynchronised accesses below it are the race detector's part, which only sees races that occur in its free-running pass; protobuf, regexp and ulid are atomic.",
    technique="preemption-bounded stateless exploration of thread interleavings (controlled scheduler) + explicit-state BFS over cache states + race-detector pass",
    design="3/C13"),
@@ -15,7 +15,7 @@ CHECKS = {
    technique="explicit-state lock-step exploration of the product of the three automata plus replay of grammar-derived sentences on the implementation",
    design="3/C19"),
  "C08": dict(
-   text="All short lexeme strings in 10 grammar contexts through every DSL and module entry point (accepted texts continue through printer and both graph builders), JSON and YAML token strings and JSON value replacements through their entry points, every single and pair of protobuf degradations (nil/empty/dropped/renamed parts) through printer, plain graph and weighted builder: no panic, result xor error, unlexable characters outside comments always rejected; work measured as deterministic instrumented step counts from a cold parser: horizon 5e7 steps and growth exponent <= 2.5 between n and 2n repetitions of every short fragment in every insertion context, for nested pumping (open^n inner close^n), and - against the wire size of the model - for scaled model families through printer and both graph builders (fixed shapes, deep operator trees, and every cell family: n levels of two relations over a 9 x 8 menu of level-to-level rewrites, open or closed into one tuple cycle), the weighted builder additionally from every start node of its depth-first weight assignment. Round 8 additions: 24 representative raw byte sequences (control characters, every kind of invalid UTF-8, BOM, Unicode separators, astral characters) at every byte offset of 13 documents (pairs at every third offset), in a JSON model and a manifest, and pumped; on every enumerated text the module merger must agree with the single-file parser (an unreadable file makes the merge fail, nothing a readable file declares is lost); a fifth base model with every kind of restriction as first and only entry of its list (this exposed genuine defect F16, fixed).",
+   text="All short lexeme strings in 10 grammar contexts through every DSL and module entry point (accepted texts continue through printer and both graph builders), JSON and YAML token strings and JSON value replacements through their entry points, every single and pair of protobuf degradations (nil/empty/dropped/renamed parts) through printer, plain graph and weighted builder: no panic, result xor error, unlexable characters outside comments always rejected; work measured as deterministic instrumented step counts from a cold parser: horizon 5e7 steps and growth exponent <= 2.5 between n and 2n repetitions of every short fragment in every insertion context, for nested pumping (open^n inner close^n), and - against the wire size of the model - for scaled model families through printer and both graph builders (fixed shapes, deep operator trees, and every cell family: n levels of two relations over a 9 x 8 menu of level-to-level rewrites, open or closed into one tuple cycle), the weighted builder additionally from every start node of its depth-first weight assignment. Round 8 additions: 24 representative raw byte sequences (control characters, every kind of invalid UTF-8, BOM, Unicode separators, astral characters) at every byte offset of 13 documents (pairs at every third offset), in a JSON model and a manifest, and pumped; on every enumerated text the module merger must agree with the single-file parser (an unreadable file makes the merge fail, nothing a readable file declares is lost); a fifth base model with every kind of restriction as first and only entry of its list (this exposed genuine defect F16, fixed). Round 11: scaled protobuf-only shapes (n direct assignments under one operator x n repeated restrictions, n unary operators, n repeated operands) through printer, plain graph and weighted builder separately, work measured in steps and in bytes allocated; corpus mutations replace pieces; C16's look-alike file sets through the merger under every style.",
    note="Step counts come from build-time instrumentation of repository, antlr runtime, generated parser and yaml.v3; asymptotics judged at n=32/64 (fragments), depth 16/32 (nesting) and 8..64 levels (families) only; known findings F11 (form feed runs, fragment signature) and F14 (cubic weight assignment on chains of diamonds closed into a tuple cycle, family + exponent-interval signature) are the only suppressions.",
    technique="bounded exhaustive enumeration of inputs and fault combinations with panic guard and deterministic step-count horizon",
    design="3/C08"),
@@ -25,12 +25,12 @@ CHECKS = {
    technique="bounded exhaustive enumeration of path strings and YAML presentations against a reference decoder with a source-position oracle",
    design="3/C15"),
  "C17": dict(
-   text="Models with parallel lines, repeated operands, nesting, cycles and defective TTUs are built, rendered, reversed twice, queried for cycles and for paths between all ordered label pairs, under every single-deviation schedule of the repository's and the graph library's map iteration (parallel-line maps fully permuted): structure equals the reference graph in both directions, drawing direction flips, rev(rev(g)).GetDOT() == g.GetDOT(), one DOT text per model over all executions, PathExists agrees with reference reachability in g and reversed in rev(g), label lookup, compile-time-cycle and acyclic flags.",
+   text="Models with parallel lines, repeated operands, nesting, cycles and defective TTUs are built, rendered, reversed twice, queried for cycles and for paths between all ordered label pairs, under every single-deviation schedule of the repository's and the graph library's map iteration (parallel-line maps fully permuted): structure equals the reference graph in both directions, drawing direction flips, rev(rev(g)).GetDOT() == g.GetDOT(), one DOT text per model over all executions, PathExists agrees with reference reachability in g and reversed in rev(g), label lookup, compile-time-cycle and acyclic flags. Round 9: same-target family in both operand orders and TTU pairs.",
    note="gonum's map iteration is owned by replacing its reflect-based iterators (build tag safe) and rewriting its range-over-map statements; operand order across different nodes is not observable in a multigraph and not compared; edge conditions of the plain graph have no accessor.",
    technique="exhaustive exploration of map-iteration schedules in repository and graph library against a reference graph and reachability",
    design="3/C17"),
  "C04": dict(
-   text="Every model of the graph alphabet (all leaves and all binary operator combinations for two relations x tupleset variants, plus three-relation cyclic and nested families) is built under every map-iteration schedule within the budgets (start orders fully permuted on small graphs); on every accepted execution all node and edge weights must equal a reference computed on the AST graph: type sets as least fixpoint with operand-level semantics, weights as longest hop count in the type-relevant subgraph, Infinite iff a cycle is reachable.",
+   text="Every model of the graph alphabet (all leaves and all binary operator combinations for two relations x tupleset variants, plus three-relation cyclic and nested families) is built under every map-iteration schedule within the budgets (start orders fully permuted on small graphs); on every accepted execution all node and edge weights must equal a reference computed on the AST graph: type sets as least fixpoint with operand-level semantics, weights as longest hop count in the type-relevant subgraph, Infinite iff a cycle is reachable. Rounds 9-10: TTU-pair family (two or three tuple-to-usersets under one operator over the same or different tuplesets, type sets {user}, {group}, both, group+user:*); rename schemes (every name prefixed with R - the letter of the builder's internal R# placeholder -, operator words as names, extended identifiers) on a selection of the cycle-rich families.",
    note="Former known finding F10 (edge-wise evaluation of intersection/exclusion operands) is repaired in /repo (8bf67d8); its defect model stays in the check but is inert (a fixed entry suppresses nothing); map order is owned by build-time rewriting; operators matched structurally.",
    technique="exhaustive schedule exploration x bounded exhaustive model enumeration against a reference weight semantics",
    design="3/C04"),
@@ -55,17 +55,17 @@ CHECKS = {
    technique="exhaustive schedule exploration x bounded exhaustive model enumeration against a reachability reference",
    design="3/C11"),
  "C07": dict(
-   text="All module file sets within the bounds (2-3 files, <= 2-3 declarations each from a menu of 13, plus malformed members; the many-extenders family of four files with up to three extensions of one type; the two-targets family of one file extending two types), each also under other layout styles, x every permutation of the file list x schema versions x map-iteration schedules of the merger: success exactly when the reference merge over the generator's declarations says so; on success the exact attributed union (also via GetModuleForObjectTypeRelation) and the requested schema version; on failure no model, no panic, and for every reference conflict an error naming a participating file.",
+   text="All module file sets within the bounds (2-3 files, <= 2-3 declarations each from a menu of 13, plus malformed members; the many-extenders family of four files with up to three extensions of one type; the two-targets family of one file extending two types), each also under other layout styles, x every permutation of the file list x schema versions x map-iteration schedules of the merger: success exactly when the reference merge over the generator's declarations says so; on success the exact attributed union (also via GetModuleForObjectTypeRelation) and the requested schema version; on failure no model, no panic, and for every reference conflict an error naming a participating file. Round 10: every third set again with all files handed over under one name.",
    note="File names within a set are distinct; 'names the offending file' is demanded for the four conflict kinds only (parse failures and 'file is not a module' have no file field in the API).",
    technique="bounded exhaustive enumeration of file sets x permutations x map schedules against a reference merge",
    design="3/C07"),
  "C12": dict(
-   text="The same file sets x all permutations of the file list x all map-iteration schedules of the merger within 2/3 deviations (all orders for the small maps these sets produce): identical model or identical error list (message, file, line, column, order) on every schedule; same verdict and, on success, equal models up to type-definition order across permutations.",
+   text="The same file sets x all permutations of the file list x all map-iteration schedules of the merger within 2/3 deviations (all orders for the small maps these sets produce): identical model or identical error list (message, file, line, column, order) on every schedule; same verdict and, on success, equal models up to type-definition order across permutations. Round 10: every third set again with all files handed over under one name.",
    note="Every permutation of a map is a behaviour the Go specification allows; map order is owned by build-time source rewriting.",
    technique="exhaustive exploration of map-iteration schedules and input permutations with a differential oracle",
    design="3/C12"),
  "C16": dict(
-   text="(bounds) every string of <= 3/4 lexemes appended to 10 valid document prefixes: every syntax error lies inside the input; (exact) every listener-level injection at every site x layouts: the error stands on the offending name according to the renderer's source map; (merge) every conflict-carrying file set plus look-alike sets x file orders x layout styles: File and Line are those of a conflicting declaration. The look-alike sets are systematic: the conflicting name continued or preceded by every character an extended identifier may hold, before and after the conflict, and the name in other roles.",
+   text="(bounds) every string of <= 3/4 lexemes appended to 10 valid document prefixes: every syntax error lies inside the input; (exact) every listener-level injection at every site x layouts: the error stands on the offending name according to the renderer's source map; (merge) every conflict-carrying file set plus look-alike sets x file orders x layout styles: File and Line are those of a conflicting declaration. The look-alike sets are systematic: the conflicting name continued or preceded by every character an extended identifier may hold, before and after the conflict, and the name in other roles. Round 10: keyword-named types (type, extend, module, model) inside multi-line restriction lists before the conflict (found F18).",
    note="Positions are read from the public Error() text / exported fields; lines split on \\n, columns in code points; merge error columns are not claimed by the property.",
    technique="bounded exhaustive enumeration of texts and injections x layouts with a source-map oracle",
    design="3/C16"),
@@ -90,7 +90,7 @@ CHECKS = {
    technique="bounded exhaustive enumeration of rewrite trees against a reference predicate and normal form",
    design="3/C02"),
  "C03": dict(
-   text="Models x all renderings within a layout-deviation budget (every single deviation at every optional layout element of the combined lexer+parser grammar, pairs on tiny models, every uniform style) are parsed by both DSL entry points and compared with the model that was written (independent AST -> protobuf reference). Grammar-level comments (tab-indented, reaching the generated multiLineComment rule) at every site where the grammar allows them, twin names (case, natural order, separators) in every name position.",
+   text="Models x all renderings within a layout-deviation budget (every single deviation at every optional layout element of the combined lexer+parser grammar, pairs on tiny models, every uniform style) are parsed by both DSL entry points and compared with the model that was written (independent AST -> protobuf reference). Grammar-level comments (tab-indented, reaching the generated multiLineComment rule) at every site where the grammar allows them, twin names (case, natural order, separators) in every name position. Round 9-10: trailing material on the last line (found F17), comments behind wide gaps, physical lines of 1 KB to 1 MB (comment, blank, trailing blanks, one-line restriction list of up to 20000 entries).",
    note="Layout sites are those of the two .g4 files enumerated in the renderer; constructs the combined grammar does not permit (NEWLINE between condition parameters, tab-indented comment lines) are never generated.",
    technique="deviation-bounded exhaustive exploration of layout choice points against a reference renderer/AST",
    design="3/C03"),
